@@ -166,28 +166,26 @@ impl AutosarModel {
 
         let mut parser = ArxmlParser::new(filename.clone(), buffer, strict);
         let root_element = parser.parse_arxml()?;
-        // Reject overlapping data before anything is modified: an Autosar path of the new data may only exist
-        // already if it refers to the same kind of element (the same identifiable can be present in multiple files)
+        // Reject overlapping data before anything is modified: every Autosar path must be unique in the new data,
+        // and it may only exist in the model already if it refers to the same kind of element there
+        // (the same identifiable can be present in multiple files)
         {
             let data = self.0.read();
-            let mut new_paths: FxHashMap<&str, ElementName> = FxHashMap::default();
+            let mut new_paths: HashSet<&str> = HashSet::with_capacity(parser.identifiables.len());
             for (key, value) in &parser.identifiables {
                 if let Some(new_element) = value.upgrade() {
-                    let new_name = new_element.element_name();
-                    let existing_name = data
+                    let differs_from_existing = data
                         .identifiables
                         .get(key)
                         .and_then(WeakElement::upgrade)
-                        .map(|existing_element| existing_element.element_name())
-                        .or_else(|| new_paths.get(key.as_str()).copied());
-                    if existing_name.is_some_and(|name| name != new_name) {
-                        // referenced element is different on both sides
+                        .is_some_and(|existing_element| existing_element.element_name() != new_element.element_name());
+                    if differs_from_existing || !new_paths.insert(key.as_str()) {
+                        // referenced element is different on both sides, or the path is defined twice in the new data
                         return Err(AutosarDataError::OverlappingDataError {
                             filename,
                             path: new_element.xml_path(),
                         });
                     }
-                    new_paths.entry(key.as_str()).or_insert(new_name);
                 }
             }
         }
